@@ -116,20 +116,22 @@ def r03b(chk, rid='R03.b'):
             allowed = allowed | a[1]
     refused = allowed.negate()
     m = chk.repo.mod(HELPER)
-    pat, flags, method = class_regex(m, None, '_match_forbidden_in_uri')
-    pn = rx.parse(pat, flags)
-    items = pn[1] if pn[0] == 'cat' else [pn]
-    if not (len(items) == 2 and items[0][0] == 'rep' and items[1][0] == 'cs' and method == 'match'):
-        raise AnalysisError('_match_forbidden_in_uri no longer has the shape `.*?[class]` applied with match')
-    quoting = items[1][1]
-    dot = items[0][1][1] if items[0][1][0] == 'cs' else rx.EMPTY
-    missing = refused - quoting
-    # the backslash is allowed raw by the url class itself (it overlaps with {escape}); reported under R03.a
-    chk.ob(rid, HELPER, 'uri', 'every character the reader refuses unquoted triggers quoting', not missing,
-           f'{missing!r} is written unquoted although url(...) cannot contain it: the value is lost on reparse')
-    # a refused character after a line break must still be found: `.` has to cross what precedes it
-    blind = (dot.negate() - quoting)
-    chk.ob(rid, HELPER, 'uri', 'the scan reaches a refused character wherever it stands', not blind, f'characters {blind!r} stop the scan without triggering quoting')
+    from sa.absint import Evaluator, Raised
+
+    ufn = m.get('uri')
+    if refused.size() > 200:
+        raise AnalysisError(f'the URI token refuses {refused.size()} characters unquoted (an ASCII subset was expected)')
+    unquoted = []
+    for ch in refused.chars(limit=200):
+        if ch == '\\':
+            continue  # allowed raw by the url class itself (it overlaps with {escape}); reported under R03.a
+        for value in ('a' + ch + 'b', ch + 'b', 'a' + ch, 'a\nb' + ch):
+            got = Evaluator(ufn, module=m).run(value=value)
+            if isinstance(got, Raised) or not (isinstance(got, str) and got.startswith('url("') and got.endswith('")')):
+                unquoted.append((ch, value, got))
+                break
+    chk.ob(rid, HELPER, 'uri', f'each of the {refused.size()} characters the reader refuses in an unquoted url(...) triggers quoting, wherever it stands (by evaluation of helper.uri)', not unquoted,
+           f'{[(repr(c), repr(g)) for c, v, g in unquoted[:4]]} written unquoted although url(...) cannot contain it: the value is lost on reparse')
     fn = m.get('uri')
     from sa.absint import Evaluator, Raised
 
@@ -137,7 +139,6 @@ def r03b(chk, rid='R03.b'):
         got = Evaluator(fn, module=m).run(value=v)
         want = 'url(' + (Evaluator(m.get('string'), module=m).run(value=v) if quoted else v) + ')'
         chk.ob(rid, HELPER, 'uri', f'{v!r} is written ' + ('in the quoted form helper.string produces' if quoted else 'unquoted') + ' (by evaluation)', got == want, f'{got!r}, prescribed {want!r}')
-    chk.ob(rid, HELPER, 'uri', "closing parenthesis, quotes and white space are among the quoting triggers", all(ord(c) in quoting for c in ')"\' \t\n'), '')
 
 
 DECODED_NEEDED_REASON = 'the serializer encodes the whole sheet text with the escapecss handler, so any token that may contain a non-ASCII character can come back as \\HEX and has to be decoded by the tokenizer'
